@@ -23,7 +23,7 @@ KINDS = {
     'k': ('Parameter', True, {'constant': True, 'allow_refs': True}),
     'kn': ('Parameter', False, {'constant': True}),
     'g': ('Parameter', False, {'per_instance': False}),
-    'n': ('Number', False, {'bounds': (0, 10)}),
+    'n': ('Number', False, {'bounds': (0, 10), 'allow_refs': True}),
     'sel': ('Selector', False, {}),
     'esel': ('Selector', False, {}),
     'r': ('Parameter', False, {'readonly': True}),
@@ -121,7 +121,7 @@ class ClassWorld:
                     ('ecblock', 1.2),
                     ('watchnew', 1), ('cparam', 2.5), ('poison', 1.5), ('addp_bad', 1.5)],
             'C14': [('new', 3), ('newk', 2), ('kset', 5), ('kupdate', 2), ('cset', 3), ('rset', 2), ('ec_open', 3), ('ec_close', 2.5), ('ec_close_first', 1), ('ec_raise', 1.5),
-                    ('touch', 1.5), ('iset', 2), ('nameset', 1), ('kref', 1.5), ('srcset', 1.5), ('newkref', 1), ('srcset_fail', 1), ('srcset_rebind', 1), ('cname', 1), ('ec_flagwatch', 1)],
+                    ('touch', 1.5), ('iset', 2), ('nameset', 1), ('kref', 1.5), ('srcset', 1.5), ('newkref', 1), ('srcset_fail', 1), ('srcset_rebind', 1), ('cname', 1), ('ec_flagwatch', 1), ('srcset_invalid', 1)],
         }[prop]
         depth = 0
         for _ in range(n_ops):
@@ -351,7 +351,7 @@ class _Run:
 
     def make_ref_src(self):
         if self.ref_src is None:
-            RS = type('RefSrc', (self.param.Parameterized,), {'x': self.param.Parameter(default=None)})
+            RS = type('RefSrc', (self.param.Parameterized,), {'x': self.param.Parameter(default=None), 'y': self.param.Parameter(default=3)})
             self.ref_src = RS(x=self.new_list())
 
     def new_instance(self, ci, kwnames, dynamic=False, share=None, kref=False):
@@ -378,6 +378,9 @@ class _Run:
         if kref:
             kw['k'] = self.ref_src.param.x
             given['k'] = self.ref_src.x
+            if 'n' in self.visible(ci) and isinstance(self.ref_src.y, int) and 0 <= self.ref_src.y <= 10:
+                kw['n'] = self.ref_src.param.y          # a second, validated parameter linked to the same source object
+                given['n'] = self.ref_src.y
         # expected constructor effects, from the governing Parameters *before* the call
         vals = {}
         adopt = {}
@@ -626,6 +629,8 @@ class _Run:
             setattr(self.insts[i], p, v)
             self.ensure_copy(i, p)
             m['values'][p] = v
+            if p == 'n':
+                m['linked_n'] = False
         elif k in ('itrigger', 'iupdctx') and has_inst:
             # neither param.trigger nor a completed `with obj.param.update(...)` block is an assignment: an instance that follows
             # the class default goes on following it, one that holds its own value keeps it
@@ -896,6 +901,21 @@ class _Run:
             if self.cfg.get('name_default'):
                 self.counter += 1
                 setattr(self.classes[ci], 'name', f"cls{self.counter}")
+        elif k == 'srcset_invalid':
+            # one update of the source changes what the constant follows AND hands the other linked parameter a value it
+            # rejects: the synchronisation fails half-way, the constant is locked again all the same
+            linked = [j for j, m_ in enumerate(self.im) if m_.get('linked_k') and m_.get('linked_n')]
+            if self.ref_src is None or not linked or any(ii == linked[0] for _, ii in self.ec):
+                return
+            new = self.new_list()
+            try:
+                self.ref_src.param.update(x=new, y=99)
+            except ValueError:
+                self.out.stats['fault.linked_value_rejected_while_a_constant_is_synchronised'] += 1
+            for j, m_ in enumerate(self.im):
+                if m_.get('linked_k'):
+                    m_['values']['k'] = self.insts[j].k if self.insts[j].k is new else m_['values']['k']
+                m_['linked_n'] = False          # the source now holds a value n rejects: not followed any further
         elif k == 'srcset_rebind':
             # a watcher of the linked constant, called because the source changed, tries to rebind the object's name (a
             # constant): an ordinary attempt outside edit_constant
@@ -929,6 +949,7 @@ class _Run:
                 self.new_instance(ci, [], kref=True)
                 if len(self.insts) > n0:
                     self.im[-1]['linked_k'] = True
+                    self.im[-1]['linked_n'] = 'n' in self.visible(ci) and self.insts[-1].n == self.ref_src.y
             else:
                 self.new_instance(ci, ['k'])
         elif k == 'kupdate' and has_inst:
